@@ -1028,4 +1028,521 @@ theorem prune_data {s : State} (hm : MetaOK s) (h : DataInv s) : DataInv (prune 
         have hsl : slotAt s.vols v i = some sl := by simp [slotAt, hvol, hs]
         exact h.dirtyChanged v i sl hsl (pruneSlot_durable s sl ▸ hd)
 
+theorem holdsAt_occList {vs : List Volume} {v i : Nat} {r : SectorId} {vol : Volume} (hh : holdsAt vs v i r)
+    (hv : findVol v vs = some vol) : r ∈ occList vol.slots := by
+  obtain ⟨sl, h1, h2⟩ := hh
+  simp only [slotAt, hv] at h1
+  simp only [occList, List.mem_filterMap]
+  exact ⟨sl, List.mem_of_getElem? h1, h2⟩
+
+theorem referenced_congr {s s' : State} (h1 : s'.c1 = s.c1) (h2 : s'.c2 = s.c2) (h3 : s'.temps = s.temps) (r : SectorId) :
+    referenced s' r = referenced s r := by
+  simp only [referenced, refd1, refd2, refdT, h1, h2, h3]
+
+theorem removeSector_data {s : State} (hm : MetaOK s) (h : DataInv s) (r : SectorId) (data : Bool)
+    (hs : ∀ p ∈ s.pending, p.r ≠ r) : DataInv (removeSector s r data).1 := by
+  simp only [removeSector]
+  split
+  · exact h
+  have h' : DataInv { s with recent := r :: s.recent } :=
+    dataInv_frame h rfl rfl rfl (fun _ hx => hx) (fun r hr => Or.inl hr) h.freshSafe
+      (fun x hx => List.mem_cons_of_mem _ (h.freshRec x hx)) h.cacheGood (fun _ hx => hx) (fun _ hx => hx)
+  split
+  · exact h'
+  rename_i v i hloc
+  split
+  · exact h'
+  split
+  · exact h'
+  split
+  · exact h'
+  have hh : holdsAt s.vols v i r := findLoc_spec hm.core.ids hloc
+  have hloc' : ∀ r', located (clearAt s.vols v i) r' = true ↔ (r' ≠ r ∧ located s.vols r' = true) := located_clear hm.core hh
+  -- the slot table after the operation, whatever `data` is
+  have key : ∀ (vs' : List Volume), (vs'.map skel = (clearAt s.vols v i).map skel) →
+      (∀ v' i' sl', slotAt vs' v' i' = some sl' → (sl'.sec = none ∧ sl'.durable = true) ∨
+        ∃ sl, slotAt s.vols v' i' = some sl ∧ (sl'.sec = none ∨ (sl'.sec = sl.sec ∧ sl'.content = sl.content)) ∧
+          (sl'.durable = false → sl.durable = false)) →
+      ∀ (cache' : List (SectorId × BufId)), (∀ e ∈ cache', e ∈ s.cache) →
+      DataInv { s with recent := r :: s.recent, vols := vs', m := { s.m with physical := s.m.physical - 1, lost := s.m.lost + 1 },
+                       cache := cache', fresh := s.fresh.filter (fun x => x != r), lostNow := r :: s.lostNow } := by
+    intro vs' hsk hslot cache' hcache
+    apply dataInv_slots h hslot
+    · intro r' hr'
+      rw [located_of_skel hsk] at hr'
+      exact ((hloc' r').mp hr').2
+    · intro r' hr'
+      by_cases e : r' = r
+      · right; subst e; simp
+      · left; rw [located_of_skel hsk]; exact (hloc' r').mpr ⟨e, hr'⟩
+    · rfl
+    · rfl
+    · intro x hx; exact List.mem_cons_of_mem _ hx
+    · intro x; rfl
+    · intro x hx; exact (List.mem_filter.mp hx).1
+    · intro x hx; exact List.mem_cons_of_mem _ hx
+    · intro e he; exact h.cacheGood e (hcache e he)
+    · intro _ hx; exact hx
+    · intro _ hx; exact hx
+  cases data with
+  | false =>
+    simp only [Bool.false_eq_true, ↓reduceIte]
+    apply key (clearAt s.vols v i) rfl ?_ s.cache (fun _ he => he)
+    intro v' i' sl' h1
+    rw [clearAt_eq] at h1
+    rcases slot_cases_modVol h1 with ⟨rfl, rfl, sl, h3, rfl⟩ | ⟨_, h3⟩
+    · exact Or.inr ⟨sl, h3, Or.inl rfl, fun x => x⟩
+    · exact same_slot h3
+  | true =>
+    simp only [↓reduceIte]
+    apply key _ (by rw [syncVol_skel, modSlot_skel v i zeroSlot (fun _ => rfl)]) ?_ (cacheRemove r s.cache)
+      (fun e he => (List.mem_filter.mp he).1)
+    intro v' i' sl' h1
+    rw [slotAt_syncVol] at h1
+    have inner : ∀ sl'', slotAt (modSlot v i zeroSlot (clearAt s.vols v i)) v' i' = some sl'' →
+        (sl''.sec = none ∧ sl''.durable = true) ∨
+        ∃ sl, slotAt s.vols v' i' = some sl ∧ (sl''.sec = none ∨ (sl''.sec = sl.sec ∧ sl''.content = sl.content)) ∧
+          (sl''.durable = false → sl.durable = false) := by
+      intro sl'' h2
+      rw [modSlot_eq] at h2
+      rcases slot_cases_modVol h2 with ⟨rfl, rfl, sl1, h3, rfl⟩ | ⟨_, h3⟩
+      · rw [clearAt_eq] at h3
+        rcases slot_cases_modVol h3 with ⟨_, _, sl0, h4, rfl⟩ | ⟨hne, _⟩
+        · left; exact ⟨rfl, rfl⟩
+        · exact absurd ⟨rfl, rfl⟩ hne
+      · rw [clearAt_eq] at h3
+        rcases slot_cases_modVol h3 with ⟨rfl, rfl, sl0, h4, rfl⟩ | ⟨_, h4⟩
+        · exact Or.inr ⟨sl0, h4, Or.inl rfl, fun x => x⟩
+        · exact same_slot h4
+    by_cases e : v' = v
+    · simp only [e, if_true] at h1
+      cases h2 : slotAt (modSlot v i zeroSlot (clearAt s.vols v i)) v i' with
+      | none => rw [h2] at h1; cases h1
+      | some sl'' =>
+        rw [h2] at h1; simp at h1; subst h1
+        rcases inner sl'' (e ▸ h2) with h3 | ⟨sl, h3, h4, _⟩
+        · exact Or.inl ⟨h3.1, rfl⟩
+        · exact Or.inr ⟨sl, h3, h4, fun x => by simp at x⟩
+    · simp only [e, if_false] at h1
+      exact inner sl' h1
+
+theorem removeVolume_data {s : State} (hm : MetaOK s) (h : DataInv s) (v : Nat) (force : Bool) : DataInv (removeVolume s v force).1 := by
+  simp only [removeVolume]
+  split
+  · exact h
+  rename_i vol hv
+  split
+  · exact h
+  split
+  · exact h
+  split
+  · exact h
+  apply dataInv_slots h
+  · intro v' i' sl' h1
+    exact same_slot (slotAt_filter _ _ _ _ h1).2
+  · intro r hr
+    exact located_mono_of_cnt (sumBy_filter_le _ _ _) hr
+  · intro r hr
+    obtain ⟨v', i', hh⟩ := holdsAt_of_located hm.core.ids hr
+    by_cases e : v' = v
+    · right
+      subst e
+      have hmem := holdsAt_occList hh hv
+      refine ⟨List.mem_append_left _ hmem, ?_⟩
+      intro hf
+      have := (List.mem_filter.mp hf).2
+      have hc : (occList vol.slots).contains r = true := by simpa using hmem
+      simp [hc] at this
+      exact this hmem
+    · left
+      obtain ⟨sl, h1, h2⟩ := hh
+      apply located_of_holdsAt (v := v') (i := i')
+      refine ⟨sl, ?_, h2⟩
+      show slotAt (s.vols.filter fun x => x.id != v) v' i' = some sl
+      simp only [slotAt, findVol_filter_ne s.vols e]; exact h1
+  · rfl
+  · rfl
+  · intro x hx; exact List.mem_append_right _ hx
+  · intro x; rfl
+  · intro x hx; exact (List.mem_filter.mp hx).1
+  · intro _ hx; exact hx
+  · exact h.cacheGood
+  · intro _ hx; exact hx
+  · intro _ hx; exact hx
+
+theorem slotAt_updVol_slots {vs : List Volume} (v : Nat) (g : Volume → Volume) (hg : ∀ x, (g x).id = x.id)
+    (hs : ∀ x, (g x).slots = x.slots) (v' i' : Nat) : slotAt (updVol v g vs) v' i' = slotAt vs v' i' := by
+  rw [slotAt_updVol _ _ _ _ hg]
+  by_cases e : v' = v
+  · subst e
+    simp only [if_true, slotAt]
+    cases findVol v' vs <;> simp [hs]
+  · simp [e]
+
+theorem flags_data {s : State} (h : DataInv s) (v : Nat) (g : Volume → Volume) (hg : ∀ x, (g x).id = x.id)
+    (hs : ∀ x, (g x).slots = x.slots) (hk : ∀ x, skel (g x) = skel x) : DataInv { s with vols := updVol v g s.vols } := by
+  have hl : ∀ r, located (updVol v g s.vols) r = located s.vols r := fun r => located_of_skel (updVol_skel v g hk s.vols) r
+  apply dataInv_slots h
+  · intro v' i' sl' h1
+    rw [slotAt_updVol_slots v g hg hs] at h1
+    exact same_slot h1
+  · intro r hr; rw [hl] at hr; exact hr
+  · intro r hr; left; rw [hl]; exact hr
+  · rfl
+  · rfl
+  · intro _ hx; exact hx
+  · intro x; rfl
+  · intro _ hx; exact hx
+  · intro _ hx; exact hx
+  · exact h.cacheGood
+  · intro _ hx; exact hx
+  · intro _ hx; exact hx
+
+theorem setReadOnly_data {s : State} (h : DataInv s) (v : Nat) (b : Bool) : DataInv (setReadOnly s v b) :=
+  flags_data h v _ (fun _ => rfl) (fun _ => rfl) (fun _ => rfl)
+theorem setAvailable_data {s : State} (h : DataInv s) (v : Nat) (b : Bool) : DataInv (setAvailable s v b) :=
+  flags_data h v _ (fun _ => rfl) (fun _ => rfl) (fun _ => rfl)
+
+theorem addVolume_data {s : State} (h : DataInv s) (id : Nat) (ro : Bool) : DataInv (addVolume s id ro).1 := by
+  simp only [addVolume]
+  split
+  · exact h
+  have hl : ∀ r, located (s.vols ++ [{ id := id, readOnly := ro }]) r = located s.vols r := by
+    intro r; simp [located, List.any_append]
+  apply dataInv_slots h
+  · intro v' i' sl' h1
+    exact same_slot (slotAt_append_new _ _ rfl _ _ h1)
+  · intro r hr; rw [hl] at hr; exact hr
+  · intro r hr; left; rw [hl]; exact hr
+  · rfl
+  · rfl
+  · intro _ hx; exact hx
+  · intro x; rfl
+  · intro _ hx; exact hx
+  · intro _ hx; exact hx
+  · exact h.cacheGood
+  · intro _ hx; exact hx
+  · intro _ hx; exact hx
+
+theorem grow_data {s : State} (hm : MetaOK s) (h : DataInv s) (v n : Nat) : DataInv (grow s v n).1 := by
+  simp only [grow]
+  split
+  · exact h
+  split
+  · exact h
+  rename_i vol hv
+  split
+  · exact h
+  let g : Volume → Volume := fun x => { x with slots := x.slots ++ List.replicate (n - x.total) {}, total := n }
+  have hgid : ∀ x, (g x).id = x.id := fun _ => rfl
+  have hcnt : ∀ r, cnt (updVol v g s.vols) r = cnt s.vols r := by
+    intro r
+    apply sumBy_updVol_same
+    intro x _ _
+    simp only [g, List.countP_append]
+    have : List.countP (holds r) (List.replicate (n - x.total) ({} : Slot)) = 0 := by
+      rw [List.countP_eq_zero]; intro a ha; rw [List.eq_of_mem_replicate ha]; simp [holds]
+    omega
+  have hl : ∀ r, located (updVol v g s.vols) r = located s.vols r := fun r => located_eq_of_cnt (hcnt r)
+  apply dataInv_slots (s' := { s with vols := updVol v g s.vols, m := { s.m with total := s.m.total + (n - vol.total) } }) h
+  · intro v' i' sl' h1
+    rw [slotAt_updVol _ _ _ _ hgid] at h1
+    by_cases e : v' = v
+    · simp only [e, if_true, hv, g] at h1
+      by_cases hi : i' < vol.slots.length
+      · rw [List.getElem?_append_left hi] at h1
+        exact same_slot (by simp [slotAt, e, hv, h1])
+      · rw [List.getElem?_append_right (by omega)] at h1
+        have := List.mem_of_getElem? h1
+        rw [List.eq_of_mem_replicate this]
+        exact Or.inl ⟨rfl, rfl⟩
+    · simp only [e, if_false] at h1
+      exact same_slot h1
+  · intro r hr; rw [hl] at hr; exact hr
+  · intro r hr; left; rw [hl]; exact hr
+  · rfl
+  · rfl
+  · intro _ hx; exact hx
+  · intro x; rfl
+  · intro _ hx; exact hx
+  · intro _ hx; exact hx
+  · exact h.cacheGood
+  · intro _ hx; exact hx
+  · intro _ hx; exact hx
+
+theorem shrink_data {s : State} (hm : MetaOK s) (h : DataInv s) (v n : Nat) : DataInv (shrink s v n).1 := by
+  simp only [shrink]
+  split
+  · exact h
+  split
+  · exact h
+  rename_i vol hv
+  split
+  · exact h
+  rename_i hocc
+  split
+  · exact h
+  split
+  · exact h
+  have hocc0 : occ (vol.slots.drop n) = 0 := by simpa using hocc
+  let g : Volume → Volume := fun x => { x with slots := x.slots.take n, total := n }
+  have hgid : ∀ x, (g x).id = x.id := fun _ => rfl
+  have hslot : ∀ v' i' sl', slotAt (updVol v g s.vols) v' i' = some sl' → slotAt s.vols v' i' = some sl' := by
+    intro v' i' sl' h1
+    rw [slotAt_updVol _ _ _ _ hgid] at h1
+    by_cases e : v' = v
+    · simp only [e, if_true, hv, g, List.getElem?_take] at h1
+      split at h1
+      · simp [slotAt, e, hv, h1]
+      · cases h1
+    · simp only [e, if_false] at h1; exact h1
+  -- occupied slots survive
+  have hkeep : ∀ v' i' r, holdsAt s.vols v' i' r → holdsAt (updVol v g s.vols) v' i' r := by
+    intro v' i' r ⟨sl, h1, h2⟩
+    refine ⟨sl, ?_, h2⟩
+    rw [slotAt_updVol _ _ _ _ hgid]
+    by_cases e : v' = v
+    · subst e
+      obtain ⟨vol', hv', hs'⟩ := slotAt_split h1
+      rw [hv] at hv'; cases hv'
+      simp only [if_true, hv, g, List.getElem?_take]
+      have hi : i' < n := by
+        apply Classical.byContradiction; intro hge
+        have hge : n ≤ i' := Nat.le_of_not_lt hge
+        have hmem : sl ∈ vol.slots.drop n := by
+          have : (vol.slots.drop n)[i' - n]? = some sl := by
+            rw [List.getElem?_drop]; rw [show n + (i' - n) = i' by omega]; exact hs'
+          exact List.mem_of_getElem? this
+        have : 0 < occ (vol.slots.drop n) := by
+          simp only [occ]; rw [List.countP_pos_iff]; exact ⟨sl, hmem, by simp [isOcc, h2]⟩
+        omega
+      simp [hi, hs']
+    · simp only [e, if_false]; exact h1
+  apply dataInv_slots (s' := { s with vols := updVol v g s.vols, m := { s.m with total := s.m.total - (vol.total - n) } }) h
+  · intro v' i' sl' h1
+    exact same_slot (hslot v' i' sl' h1)
+  · intro r hr
+    obtain ⟨v', i', sl, h1, h2⟩ := holdsAt_of_located (by rw [updVol_ids _ _ _ hgid]; exact hm.core.ids) hr
+    exact located_of_holdsAt ⟨sl, hslot v' i' sl h1, h2⟩
+  · intro r hr
+    left
+    obtain ⟨v', i', hh⟩ := holdsAt_of_located hm.core.ids hr
+    exact located_of_holdsAt (hkeep v' i' r hh)
+  · rfl
+  · rfl
+  · intro _ hx; exact hx
+  · intro x; rfl
+  · intro _ hx; exact hx
+  · intro _ hx; exact hx
+  · exact h.cacheGood
+  · intro _ hx; exact hx
+  · intro _ hx; exact hx
+
+/-! ## reads, Sync, process death -/
+
+theorem cacheGet_mem {r : SectorId} {c : List (SectorId × BufId)} {b : BufId} (h : cacheGet r c = some b) : (r, b) ∈ c := by
+  induction c with
+  | nil => simp [cacheGet] at h
+  | cons x xs ih =>
+    obtain ⟨k, b'⟩ := x
+    simp only [cacheGet] at h
+    split at h
+    · rename_i e; cases h; simp [e]
+    · exact List.mem_cons_of_mem _ (ih h)
+
+/-- content of the slot a not-in-flight located sector sits in -/
+theorem content_of_holds {s : State} (h : DataInv s) {v i : Nat} {r : SectorId} {sl : Slot} (hs : slotAt s.vols v i = some sl)
+    (hsec : sl.sec = some r) (hnp : ¬ isPending s r) : sl.content = .dataOf r := by
+  rcases h.slotData v i sl r hs hsec with ⟨p, hp, _, _, e⟩ | h1
+  · exact absurd ⟨p, hp, e⟩ hnp
+  · exact h1
+
+theorem read_data {s : State} (hm : MetaOK s) (h : DataInv s) (r : SectorId) (hs : ¬ isPending s r) :
+    DataInv (Hostd.Volumes.read s r).1 := by
+  simp only [Hostd.Volumes.read]
+  split
+  · rename_i b hb
+    refine dataInv_frame h rfl rfl rfl (fun _ hx => hx) (fun r hr => Or.inl hr) h.freshSafe h.freshRec ?_ (fun _ hx => hx) (fun _ hx => hx)
+    intro e he
+    simp only [cacheTouch, List.mem_cons, List.mem_filter] at he
+    rcases he with rfl | he
+    · exact h.cacheGood _ (cacheGet_mem hb)
+    · exact h.cacheGood e he.1
+  split
+  · exact h
+  have h' : DataInv { s with recent := r :: s.recent } :=
+    dataInv_frame h rfl rfl rfl (fun _ hx => hx) (fun r hr => Or.inl hr) h.freshSafe
+      (fun x hx => List.mem_cons_of_mem _ (h.freshRec x hx)) h.cacheGood (fun _ hx => hx) (fun _ hx => hx)
+  split
+  · exact h'
+  rename_i v i hloc
+  split
+  · exact h'
+  rename_i sl hsl
+  obtain ⟨sl0, h0, hsec⟩ := findLoc_spec hm.core.ids hloc
+  have hsl' : slotAt s.vols v i = some sl := hsl
+  rw [hsl'] at h0; cases h0
+  have hcont := content_of_holds h hsl' hsec hs
+  refine dataInv_frame h rfl rfl rfl (fun _ hx => hx) (fun r hr => Or.inl hr) h.freshSafe
+    (fun x hx => List.mem_cons_of_mem _ (h.freshRec x hx)) ?_ (fun _ hx => hx) (fun _ hx => hx)
+  intro e he
+  rcases mem_cacheAdd he with rfl | he
+  · show (s.heap ++ [sl.content])[s.heap.length]? = _
+    simp [hcont]
+  · exact heap_append_get (h.cacheGood e he)
+
+theorem slotAt_foldSync (l : List Nat) (vs : List Volume) (v i : Nat) :
+    slotAt (l.foldl (fun vs w => syncVol w vs) vs) v i =
+      if v ∈ l then (slotAt vs v i).map (fun sl => { sl with durable := true }) else slotAt vs v i := by
+  induction l generalizing vs with
+  | nil => simp
+  | cons w ws ih =>
+    simp only [List.foldl_cons, ih, slotAt_syncVol, List.mem_cons]
+    by_cases e1 : v = w <;> by_cases e2 : v ∈ ws <;> simp [e1, e2]
+    all_goals (cases slotAt vs w i <;> simp)
+
+theorem foldSync_skel (l : List Nat) (vs : List Volume) : (l.foldl (fun vs w => syncVol w vs) vs).map skel = vs.map skel := by
+  induction l generalizing vs with
+  | nil => rfl
+  | cons x xs ih => simp only [List.foldl_cons]; rw [ih, syncVol_skel]
+
+theorem sync_data {s : State} (h : DataInv s) : DataInv (sync s) := by
+  have hsk := foldSync_skel s.changed s.vols
+  have hslot : ∀ v i sl', slotAt (sync s).vols v i = some sl' →
+      sl'.durable = true ∧ ∃ sl, slotAt s.vols v i = some sl ∧ sl'.sec = sl.sec ∧ sl'.content = sl.content := by
+    intro v i sl' h1
+    simp only [sync, slotAt_foldSync] at h1
+    split at h1
+    · cases hs : slotAt s.vols v i with
+      | none => rw [hs] at h1; cases h1
+      | some sl => rw [hs] at h1; simp at h1; subst h1; exact ⟨rfl, sl, rfl, rfl, rfl⟩
+    · rename_i hn
+      refine ⟨?_, sl', h1, rfl, rfl⟩
+      cases hd : sl'.durable with
+      | true => rfl
+      | false => exact absurd (h.dirtyChanged v i sl' h1 hd) hn
+  refine ⟨?_, ?_, ?_, ?_, h.freshRec, h.cacheGood, ?_, ?_, h.pendW⟩
+  · intro v i sl' r h1 h2
+    obtain ⟨_, sl, h3, e1, e2⟩ := hslot v i sl' h1
+    rw [e2]; exact h.slotData v i sl r h3 (e1 ▸ h2)
+  · intro v i sl' r h1 h2 hd
+    rw [(hslot v i sl' h1).1] at hd; cases hd
+  · intro r hr
+    rcases h.refSafe r hr with h1 | ⟨h1, _, h3⟩
+    · exact Or.inl h1
+    · exact Or.inr ⟨by show located (sync s).vols r = true; simp only [sync]; rw [located_of_skel hsk]; exact h1, by simp [sync], h3⟩
+  · intro r hr
+    obtain ⟨h1, h3⟩ := h.freshSafe r hr
+    exact ⟨by show located (sync s).vols r = true; simp only [sync]; rw [located_of_skel hsk]; exact h1, h3⟩
+  · intro r hr
+    have : located (sync s).vols r = located s.vols r := by simp only [sync]; exact located_of_skel hsk r
+    rw [this] at hr; exact h.locStored r hr
+  · intro v i sl' h1 hd
+    rw [(hslot v i sl' h1).1] at hd; cases hd
+
+theorem crash_data {s : State} (h : DataInv s) (lost : List (Nat × Nat)) (hp : s.pending = [])
+    (hfree : ∀ p ∈ lost, freeAt s.vols p.1 p.2) : DataInv (crash s lost).1 := by
+  simp only [crash]
+  split
+  · exact h
+  have hid : ∀ x : Volume, ({ x with slots := crashSlots x.id lost x.slots 0, available := true } : Volume).id = x.id := fun _ => rfl
+  have hsk : (s.vols.map fun v => { v with slots := crashSlots v.id lost v.slots 0, available := true }).map skel = s.vols.map skel := by
+    apply map_skel_of
+    intro x
+    simp only [skel, crashSlots_secs]
+  have hslot : ∀ v i sl', slotAt (s.vols.map fun v => { v with slots := crashSlots v.id lost v.slots 0, available := true }) v i = some sl' →
+      sl'.durable = true ∧ ∃ sl, slotAt s.vols v i = some sl ∧ sl'.sec = sl.sec ∧ (sl.sec ≠ none → sl'.content = sl.content) := by
+    intro v i sl' h1
+    rw [slotAt_map _ hid] at h1
+    split at h1
+    · cases h1
+    · rename_i vol hv
+      have hvid := (findVol_some hv).2
+      simp only [crashSlots_get, Nat.zero_add] at h1
+      cases hs : vol.slots[i]? with
+      | none => rw [hs] at h1; cases h1
+      | some sl =>
+        rw [hs] at h1
+        simp only [Option.map_some, Option.some.injEq] at h1
+        have hsl : slotAt s.vols v i = some sl := by simp [slotAt, hv, hs]
+        by_cases hl : lost.contains (vol.id, i) = true
+        · simp only [hl, if_true] at h1; subst h1
+          refine ⟨rfl, sl, hsl, rfl, ?_⟩
+          intro hne
+          have : (vol.id, i) ∈ lost := by simpa using hl
+          have := hfree _ this sl (by rw [hvid]; exact hsl)
+          exact absurd this hne
+        · simp only [hl, if_false] at h1; subst h1
+          exact ⟨rfl, sl, hsl, rfl, fun _ => rfl⟩
+  have nopend : ∀ r, ¬ isPending s r := by
+    intro r ⟨p, hp', _⟩; rw [hp] at hp'; cases hp'
+  refine ⟨?_, ?_, ?_, ?_, ?_, ?_, ?_, ?_, by simp⟩
+  · intro v i sl' r h1 h2
+    obtain ⟨_, sl, h3, e1, e2⟩ := hslot v i sl' h1
+    right
+    have hsec : sl.sec = some r := e1 ▸ h2
+    rw [e2 (by rw [hsec]; simp)]
+    exact content_of_holds h h3 hsec (nopend r)
+  · intro v i sl' r h1 h2 hd
+    rw [(hslot v i sl' h1).1] at hd; cases hd
+  · intro r hr
+    rcases h.refSafe r hr with h1 | ⟨h1, _, _⟩
+    · exact Or.inl h1
+    · refine Or.inr ⟨by rw [located_of_skel hsk]; exact h1, by simp, ?_⟩
+      rintro ⟨p, hp', _⟩; cases hp'
+  · intro r hr; cases hr
+  · intro r hr; cases hr
+  · intro e he; cases he
+  · intro r hr
+    rw [located_of_skel hsk] at hr; exact h.locStored r hr
+  · intro v i sl' h1 hd
+    rw [(hslot v i sl' h1).1] at hd; cases hd
+
+theorem restart_data {s : State} (h : DataInv s) : DataInv (restart s).1 := by
+  simp only [restart]
+  split
+  · exact h
+  rename_i hp
+  have hp' : s.pending = [] := by
+    cases hx : s.pending with
+    | nil => rfl
+    | cons a b => simp [hx] at hp
+  have hid : ∀ x : Volume, ({ x with slots := x.slots.map fun sl => { sl with durable := true } } : Volume).id = x.id := fun _ => rfl
+  have hsk : (s.vols.map fun v => { v with slots := v.slots.map fun sl => { sl with durable := true } }).map skel = s.vols.map skel := by
+    apply map_skel_of
+    intro x
+    simp [skel, List.map_map, Function.comp_def]
+  have hslot : ∀ v i sl', slotAt (s.vols.map fun v => { v with slots := v.slots.map fun sl => { sl with durable := true } }) v i = some sl' →
+      sl'.durable = true ∧ ∃ sl, slotAt s.vols v i = some sl ∧ sl'.sec = sl.sec ∧ sl'.content = sl.content := by
+    intro v i sl' h1
+    rw [slotAt_map _ hid] at h1
+    split at h1
+    · cases h1
+    · rename_i vol hv
+      simp only [List.getElem?_map] at h1
+      cases hs : vol.slots[i]? with
+      | none => rw [hs] at h1; cases h1
+      | some sl =>
+        rw [hs] at h1; simp at h1; subst h1
+        exact ⟨rfl, sl, by simp [slotAt, hv, hs], rfl, rfl⟩
+  have h1 : DataInv { s with vols := s.vols.map fun v => { v with slots := v.slots.map fun sl => { sl with durable := true } } } := ?_
+  · exact crash_data h1 [] hp' (by intro p hp; cases hp)
+  refine ⟨?_, ?_, ?_, ?_, h.freshRec, h.cacheGood, ?_, ?_, h.pendW⟩
+  · intro v i sl' r h1 h2
+    obtain ⟨_, sl, h3, e1, e2⟩ := hslot v i sl' h1
+    rw [e2]; exact h.slotData v i sl r h3 (e1 ▸ h2)
+  · intro v i sl' r h1 h2 hd
+    rw [(hslot v i sl' h1).1] at hd; cases hd
+  · intro r hr
+    rcases h.refSafe r hr with h1 | ⟨h1, h2, h3⟩
+    · exact Or.inl h1
+    · exact Or.inr ⟨by rw [located_of_skel hsk]; exact h1, h2, h3⟩
+  · intro r hr
+    obtain ⟨h1, h3⟩ := h.freshSafe r hr
+    exact ⟨by rw [located_of_skel hsk]; exact h1, h3⟩
+  · intro r hr
+    rw [located_of_skel hsk] at hr; exact h.locStored r hr
+  · intro v i sl' h1 hd
+    rw [(hslot v i sl' h1).1] at hd; cases hd
+
 end Hostd.Props.C02
